@@ -132,6 +132,13 @@ def gen_random(rng, n, big=True):
             c.update(params(rng))
             c["luby_factor"] = rng.choice([1, 3])
             c["limit"] = rng.choice([1, 1, 2, 5])
+        if rng.random() < 0.2:
+            # a literal written twice in a two-literal clause is a unit constraint in disguise
+            vs = sorted({abs(x) for cl in c["clauses"] for x in cl}) or [1]
+            for _ in range(rng.randint(1, 2)):
+                v = rng.choice(vs)
+                lit = v if rng.random() < 0.5 else -v
+                c["clauses"].insert(rng.randint(0, len(c["clauses"])), [lit, lit])
         if rng.random() < 0.3:
             longs = [cl for cl in c["clauses"] if len(cl) >= 3]
             for _ in range(rng.randint(1, 3) if longs else 0):
